@@ -339,7 +339,12 @@ class Builder:
 
     def subrt_compile_subroutine(self, pre_subroutine: ProtoSubroutine) -> Subroutine:
         """Convert a ProtoSubroutine into a Subroutine."""
-        subroutine: Subroutine = assemble_subroutine(pre_subroutine)
+        # Registers that are still in use (e.g. allocated with `new_register` before an
+        # earlier flush) must not be used as scratch registers by the assembler.
+        subroutine: Subroutine = assemble_subroutine(
+            pre_subroutine,
+            reserved_registers=self._mem_mgr.get_active_registers(),
+        )
         if self._compiler is not None:
             subroutine = self._compiler(subroutine=subroutine).transpile()
         if self._track_lines:
